@@ -111,7 +111,8 @@ namespace PySpike.C15
 theorem source_default_thresh_sq_is_model (F : Nat) (L : List PyTrain) :
     GenApi.default_thresh_sq F L = some (defaultThreshSq (L.map ofPy)) := gen_default_thresh_sq F L
 
-/-- `default_thresh_(train_list, t_start, t_end)`: the mean of the squared pooled `isi_lengths` -/
+/-- `default_thresh_(train_list, t_start, t_end)`: the mean of the squared pooled `isi_lengths`. (For `train_list = []`
+    the divisor is 0: numpy returns nan, the rational model 0; `default_thresh` returns before it would pass an empty list.) -/
 theorem source_default_thresh_pool (F : Nat) (ls : List (List Rat)) (ts te : Rat) :
     GenApi.default_thresh__sq F ls ts te =
       some (qsum ((ls.flatMap fun s => isiLengths s ts te).map fun x => x * x) /
